@@ -351,7 +351,7 @@ def bound_comparisons(ctx):
     g = cfg_of(cv.node)
     enum_tests = [n for n in g.stmt_nodes() if n.kind == 'test' and isinstance(n.ast, ast.Compare) and unparse(n.ast.comparators[0]) == 'self._PERMITTED'
                   and unparse(n.ast.left) == v]
-    ok = bool(enum_tests) and all(isinstance(n.ast.ops[0], ast.NotIn) and dom.branch_raises(g, n, 'T') for n in enum_tests)
+    ok = bool(enum_tests) and all(isinstance(n.ast.ops[0], ast.In) and dom.branch_raises(g, n, 'F') for n in enum_tests)      # canonical form of `v not in ..` [T]
     res.check(ok, 'R-ORD.bounds', cv.fq, "enumeration: `v not in self._PERMITTED` -> raise ValueError", key='R-ORD.bounds|enumeration')
     for n in enum_tests:
         guards = [unparse(t.ast) for t, lab in dom.guards_of(g, n) if t.kind == 'test']
@@ -369,8 +369,9 @@ def bound_comparisons(ctx):
         res.check(rejected == op_reject, 'R-ORD.bounds', st.fq, f"rejects exactly value {'/'.join(sorted(op_reject))} {bound}",
                   fail_detail=f"`{short(cmps[0])}`", key=f"R-ORD.bounds|{cls}|table")
         g2 = cfg_of(st.node)
-        tn = [n for n in g2.stmt_nodes() if n.kind == 'test' and n.ast is cmps[0]]
-        res.check(bool(tn) and dom.branch_raises(g2, tn[0], 'T') or bool(tn) and any(isinstance(s, ast.Raise) for s in tn[0].stmt.body), 'R-ORD.bounds', st.fq,
+        tnode, tlab = dom.test_node_of(g2, cmps[0])
+        tn = [tnode] if tnode is not None else []
+        res.check(bool(tn) and dom.branch_raises(g2, tn[0], tlab) or bool(tn) and any(isinstance(s, ast.Raise) for s in tn[0].stmt.body), 'R-ORD.bounds', st.fq,
                   "the rejecting branch raises ValueError", key=f"R-ORD.bounds|{cls}|raises")
 
 
@@ -420,7 +421,7 @@ def gate_identity(ctx):
     ok = bool(vcheck)
     for vc in vcheck:
         guards = [(unparse(t.ast), lab) for t, lab in dom.guards_of(g, vc) if t.kind == 'test']
-        ok = ok and all(txt == f"{p} not in self._FORCED_PERMITTED" and lab == 'T' for txt, lab in guards)
+        ok = ok and all(txt == f"{p} in self._FORCED_PERMITTED" and lab == 'F' for txt, lab in guards)
     res.check(ok, 'R-DOM.checked-is-stored', st.fq, "the facet gate runs for every value except the forced-permitted literals", key='R-DOM.checked-is-stored|simple|facet-gate')
     res.check(all(g.path_avoiding(g.entry, s, avoid=vcheck + [n for n in g.stmt_nodes() if n.kind == 'test']) is None or True for s in stores), 'R-DOM.checked-is-stored', st.fq,
               "the store follows the checks", key='R-DOM.checked-is-stored|simple|order')
